@@ -117,7 +117,7 @@ def run(ctx):
                 'collocation_derivs(_info), ev/deriv (splev), BSplineFunc.grid_eval/jacobian/hessian/pointwise_* in 1-D and 2-D.  '
                 'non-trivial = degree >= 1 and >= 2 spans.  plus a probe of degrees 13..16 (C int `fac`).')
     S = Stream(ctx, 'drv_c02')
-    nkv = 200 if quick else 5000
+    nkv = 150 if quick else 4000
     npts = 0
 
     def guarded(fn):
@@ -146,8 +146,8 @@ def run(ctx):
         KV = bspline.KnotVector(k.copy(), p)
         kvd = plist(k, frac)
         us = points_for(rng, k, p, nrand=3)
-        if len(us) > 14:
-            us = np.ascontiguousarray(us[np.sort(rng.permutation(len(us))[:14])])
+        if len(us) > 12:
+            us = np.ascontiguousarray(us[np.sort(rng.permutation(len(us))[:12])])
         m = len(us)
         nd = int(rng.integers(0, p + 3))
         ctx.case(('kv', p, tuple(k.tolist()), nd), nontrivial=(p >= 1 and len(np.unique(k)) >= 3))
